@@ -41,7 +41,7 @@ FUEL_LIMIT = 30_000_000
 # a case that exhausts FUEL_LIMIT is run once more with this (50x) budget: only
 # if that is exhausted too is it reported as "did not return". Slow by design
 # (an exponential dynamic programme over ~18 groups) is not stuck.
-FUEL_CONFIRM = 1_500_000_000
+FUEL_CONFIRM = 1_000_000_000
 # a "did not return" failure is not shrunk (every candidate would cost minutes)
 NO_SHRINK = "did not return within the step budget"
 
@@ -188,7 +188,7 @@ def strategy(tier, sub=None):
 def budget(tier, sub=None):
     # (case_seconds: the wall-clock allowance of ONE case, generous because a case that
     # exhausts the first step budget is re-run with a 50x budget, which takes minutes)
-    return {"examples": 16000 if tier == "quick" else 320000, "shards": 16, "case_seconds": 1500, "timeout": 3000 if tier == "quick" else 8 * 3600}
+    return {"examples": 16000 if tier == "quick" else 320000, "shards": 16, "case_seconds": 3000, "timeout": 7200 if tier == "quick" else 10 * 3600}
 
 
 def pattern(inputs, output, sizes):
